@@ -216,7 +216,7 @@ class Judge:
                 break
             if len(w) < 1 or R.in_language_ends(model, w):
                 continue
-            if cfg.get('subst', 'plain') != 'plain' and set(w) & {'h', 'm', 'k'}:
+            if cfg.get('subst', 'plain') != 'plain' and set(w) & {'h', 'm', 'k', 'j'}:
                 continue   # abstract / blocked members: the library reports the error on the child itself
             n += 1
             root = M.instance_element(w)
